@@ -77,6 +77,7 @@ def replacement_value(rng, s, e):
     if s[0] == 'EAM-Embed': return rng.choice(sc.EMBED_DEFS)
     if s[0] == 'EAM-Density': return rng.choice(sc.DENS_DEFS)
     if s[0] == 'Tabulation': return {'nr': '12', 'cutoff': '7.0', 'nrho': '6', 'cutoff_rho': '20.0'}.get(e['key'][1], e['val'])
+    if s[0] in ('Other', 'Variables', 'Species') and rng.random() < 0.4: return ''          # an empty replacement value is a value, not a removal
     if s[0] == 'Potential-Form' and rng.random() < 0.5: return '(%s) + if(r > 100, 1, 0)*0 + (r > 1000 ? 1 : 0)*0' % e['val']      # the same function, written with a ':' in it
     return e['val']
 
@@ -295,6 +296,11 @@ def corpus():
         ovr = [['override', s_, e['key'], 0, v1], ['override', s_, e['key'], 0, v2], ['override', s_, e['key'], 0, v1]]      # V1, V2, V1: ends up with V1
         adds = [['add', ('Other', 'Extra'), ('opt', 'twice'), 0, 'v1'], ['add', ('Other', 'Extra'), ('opt', 'twice'), 0, 'v1']] if k != 1 else []   # the same addition twice: refused
         out.append({'model': m, 'ovr': ovr, 'adds': adds, 'route': route})
+    # an item emptied (not removed): add it first, then override it with the empty value
+    for k, route in ((4, 'api'), (5, 'cli')):
+        g = random.Random(1400 + k); m = sc.gen_model(g)
+        m['sections'].append((('Other', 'Extra'), [{'key': ('opt', 'k0'), 'val': 'v0', 'sp': 0}, {'key': ('opt', 'k1'), 'val': 'v1', 'sp': 0}]))
+        out.append({'model': m, 'ovr': [['override', ('Other', 'Extra'), ('opt', 'k0'), 0, '']], 'adds': [], 'route': route})
     return out
 
 def search_cases(rng, n):
